@@ -146,6 +146,29 @@ CLAIMED = {
         note="After BREAK only the call log is compared; node identity across rebuilt nodes is (kind, loc); the I-spec VisitLoop of the design is not built (the P-spec decides).",
         technique="TLC evaluation of recorded visit() runs against the recursive contract VisitContract.tla",
     ),
+    "C12": dict(
+        category="model_checking",
+        text=("ValidateLaws.tla states V1 (the errors of a rule set are the bag union of the errors of each rule alone, also for random subsets and "
+              "permutations), V2 (messages independent of reprinting, stripping, inserted ignored material and added descriptions), V3 (determinism, document "
+              "and schema untouched) and V4 (with limit n: the first min(n, total) errors followed by one abort notice iff total > n). Valid, mutated and "
+              "grammar-random documents are validated with every specified rule alone, the full set, subsets, permutations, four layout variants and six "
+              "limits; TLC evaluates V1-V4 on the recorded error lists."),
+        design_ref="DESIGN.md 5/C12",
+        note="V1-V4 are metamorphic laws of the real validate(); TLC's role is the evaluation of the laws on recorded lists (thin use of the technique, see DESIGN 7); the I-spec ValidateDriver is not built.",
+        technique="TLC evaluation of recorded validation results against the laws of ValidateLaws.tla",
+    ),
+    "C13": dict(
+        category="model_checking",
+        text=("Soundness of validation w.r.t. the specification's executor: valid documents and abstract mutants of them (10 mutation kinds: literal kind, "
+              "variable type, nullable variable at non-null position, unknown field/argument, dropped required argument, impossible fragment, leaf with / "
+              "composite without selection, null literal) are executed only if the REAL validate() accepts them, with variables the real coercion accepts, "
+              "over data that conforms to the schema and over arbitrary data. TLC evaluates Execute.tla on every recorded execution: the response equals the "
+              "specification's; with conforming data every error is an argument-coercion failure without a resolver call (the run-time check the "
+              "specification defers); with arbitrary data every error position is one the specification attributes to the data."),
+        design_ref="DESIGN.md 5/C13",
+        note="Trusted: Execute.tla and the conforming-data generator; the transcription of the validation rules themselves (Rules.tla of the design) is not built - the real validate() is the filter and Execute.tla the judge.",
+        technique="TLC evaluation of executions of validate()-accepted documents against Execute.tla with a conforming-data clause",
+    ),
     "C14": dict(
         category="model_checking",
         text=("Differential against a transcription of the specification's algorithm: FieldMerge.tla implements FieldsInSetCanMerge / SameResponseShape "
